@@ -81,7 +81,7 @@ PROPS["C03"] = {
     ],
     "require_classes": {"quick": ["add_inf_inf", "add_inf_p", "add_p_inf", "add_p_p", "add_p_negp", "add_generic", "add_inf_altrep",
                                   "z_not_one", "alias_recv", "alias_all", "mixed_p_p", "mixed_p_negp", "mixed_inf", "dbl_inf",
-                                  "equal_true_diffrep", "equal_neg", "equal_same_y", "equal_inf_inf", "equal_p_inf", "yodd", "yeven", "enc_inf",
+                                  "equal_true_diffrep", "equal_neg", "equal_same_y", "equal_inf_inf", "equal_p_inf", "yodd", "yeven", "inf_parity", "enc_inf",
                                   "chain_step"]},
     "assumptions": [
         "full-size group operations are sampled (steered representatives and relations, exact TLA+ oracle); exhaustiveness is on miniature curves",
@@ -108,7 +108,8 @@ PROPS["C04"] = {
                   "against Group!PMul on those scalars x {identity (two representatives), G, random, other representatives, receiver = P}.",
     "level_note": "trusted: TLC, BigInt/EcAdd/EcMul overrides (self-tested against the TLA+ definitions on every setup), verif accessors",
     "exhaustive": _MUL_A,
-    "drivers": [{"driver": "mul", "trace": "Trace_Point"}],
+    "drivers": [{"driver": "mul", "trace": "Trace_Point"},
+                {"driver": "mul", "trace": "Trace_Point", "tags": ("verif", "purego")}],            # the portable lookup is part of this property's code
     "require_classes": {"quick": ["split_extreme", "split_neg1", "split_neg2", "split_round_flip", "split_limb_carry", "split_edge",
                                   "mul_zero", "mul_inf", "mul_alias", "mul_edge_scalar", "mul_altrep", "glv_bound"]},
     "assumptions": ["full-size multiplications are sampled on steered scalars with an exact oracle; the for-all-s bound is a closed form evaluated at full size "
@@ -149,7 +150,7 @@ PROPS["C06"] = {
     ],
     "drivers": [{"driver": "sec1", "trace": "Trace_Point"}],
     "require_classes": {"quick": ["dec_ok_cmp", "dec_ok_unc", "dec_ok_inf", "dec_bad_len", "dec_bad_prefix", "dec_noncanon_x", "dec_noncanon_y",
-                                  "dec_offcurve", "dec_nonresidue", "dec_hybrid", "dec_recv_uninit", "dec_recv_kept", "coords_ok", "coords_bad",
+                                  "dec_offcurve", "dec_nonresidue", "dec_hybrid", "dec_recv_uninit", "dec_recv_kept", "dec_fresh", "coords_ok", "coords_bad",
                                   "rec_ok_low", "rec_ok_high", "rec_overflow", "rec_bad_id", "rec_nonresidue"]},
     "assumptions": ["full-size byte strings are sampled per class (exact oracle); all byte strings are enumerated only on the miniature curves"],
 }
@@ -164,7 +165,8 @@ PROPS["C16"] = {
                   "combinations and mismatched lengths (must panic with the receiver untouched); inputs must be unchanged afterwards.",
     "level_note": "trusted: TLC, BigInt/EcAdd/EcMul overrides (self-tested), verif accessors",
     "exhaustive": _MUL_A,
-    "drivers": [{"driver": "msm", "trace": "Trace_Point"}],
+    "drivers": [{"driver": "msm", "trace": "Trace_Point"},
+                {"driver": "msm", "trace": "Trace_Point", "tags": ("verif", "purego")}],
     "require_classes": {"quick": ["msm_len0", "msm_len1", "msm_len2", "msm_len3plus", "msm_long", "msm_zero_scalar", "msm_inf_point", "msm_dup",
                                   "msm_inverse", "msm_alias", "msm_mismatch", "msm_cancel", "dsm", "mul_alias"]},
     "assumptions": ["full-size list shapes and operand classes are sampled with an exact oracle; exhaustiveness is on the miniature curve"],
@@ -192,7 +194,7 @@ PROPS["C07"] = {
     "drivers": [{"driver": "verify", "trace": "Trace_Ecdsa"}],
     "require_classes": {"quick": ["r_zero", "s_zero", "high_s_rej", "high_s_acc", "x_ge_n", "R_inf", "e_zero", "digest_ge_n", "digest_short",
                                   "digest_long", "accept", "reject", "enc_asn1", "enc_compact", "enc_rec", "enc_bogus", "rec_wrong_v", "btc_accept",
-                                  "btc_badenv", "btc_high_s", "hash_mismatch", "parse_reject", "alt_path", "nil_opts"]},
+                                  "btc_badenv", "btc_high_s", "hash_mismatch", "parse_reject", "alt_path", "nil_opts", "after_scribble"]},
     "assumptions": ["full-size inputs are constructed per corner class and decided by an exact oracle; all inputs are enumerated only on miniature curves"],
 }
 
@@ -230,7 +232,7 @@ PROPS["C09"] = {
     "exhaustive": [{"spec": "MC_Nonce", "params": "mini43"}],
     "drivers": [{"driver": "nonce", "trace": "Trace_Ecdsa", "shards": 16}],
     "require_classes": {"quick": ["reader_short_reads", "reader_fail_0", "reader_fail_mid", "reader_fail_31", "reader_err_with_last", "reader_ok",
-                                  "same_triple", "entropy_one_byte_diff", "constant_entropy_diff_msg", "sample_first", "sample_after_zero",
+                                  "same_triple", "entropy_one_byte_diff", "constant_entropy_diff_msg", "nil_rand", "wiped_import", "sample_first", "sample_after_zero",
                                   "sample_after_ge_n", "sample_exhausted", "sample_short", "sample_edge_accept", "drbg_multi", "drbg_vector", "rfc6979",
                                   "inadmissible_len"]},
     "assumptions": ["statistical unbiasedness is not decided, only the structural rule (reject, never reduce; bounded retries)",
@@ -248,7 +250,7 @@ PROPS["C10"] = {
     "exhaustive": _ECDSA_A[:1] + [{"spec": "MC_Sec1", "params": "mini211", "env": {"VERIF_MCFULL": "1"}}],
     "drivers": [{"driver": "keys", "trace": "Trace_Ecdsa"}],
     "require_classes": {"quick": ["priv_ok", "priv_zero", "priv_ge_n", "priv_badlen", "pub_ok_unc", "pub_ok_cmp", "pub_identity", "pub_invalid",
-                                  "pub_twist", "ecdh_ok", "ecdh_edge", "key_immutable"]},
+                                  "pub_twist", "ecdh_ok", "ecdh_edge", "ecdh_repeat", "key_immutable"]},
     "assumptions": ["full-size keys are sampled per class with an exact oracle"],
 }
 
